@@ -50,6 +50,7 @@ type Appended struct {
 	Request  int // index of the produce request that appended it
 	Sequence int32
 	Epoch    int16
+	Headers  []string // header keys of the record, in order
 }
 
 // ReqLog is what the cluster saw of one produce request.
@@ -215,8 +216,12 @@ func (c *Cluster) produce(broker int, r *sarama.ProduceRequest) interface{} {
 		app := func() int64 {
 			base := int64(len(c.Logs[key]))
 			for j, v := range b.Values {
+				var hk []string
+				if j < len(b.HeaderKeys) {
+					hk = b.HeaderKeys[j]
+				}
 				c.Logs[key] = append(c.Logs[key], Appended{ID: IDOf(v), Offset: base + int64(j), Request: idx,
-					Sequence: b.FirstSequence + int32(j), Epoch: b.ProducerEpoch})
+					Sequence: b.FirstSequence + int32(j), Epoch: b.ProducerEpoch, Headers: hk})
 			}
 			return base
 		}
